@@ -54,7 +54,7 @@ var colC12 *ev.Collector
 func propC12(t *rapid.T) {
 	col := colC12
 	col.Case()
-	cfg := irsem.GenCfg{MaxDepth: rapid.IntRange(1, 4).Draw(t, "depth"), GadgetProb: 50}
+	cfg := irsem.GenCfg{MaxDepth: rapid.IntRange(1, ev.Scale(4, 6)).Draw(t, "depth"), GadgetProb: 50}
 	if rapid.IntRange(0, 2).Draw(t, "small") == 0 {
 		cfg.SmallWidths = true
 	}
